@@ -60,7 +60,7 @@ pub fn gen(seed: u64, n: usize, _tier: &str) -> Vec<Case> {
     // writer inside another connection's EXEC; UNWATCH / DISCARD / EXEC forget; WATCH under another db
     for _ in 0..n {
         let mut ops = vec![conn_op(1), conn_op(2), conn_op(3)];
-        let keys: &[&[u8]] = &[b"wk", b"other", b"k1", b"k2"];
+        let keys: &[&[u8]] = &[b"wk", b"other", b"k1", b"k2", b"kg", b"ka"];
         for _ in 0..(8 + r.below(40)) {
             let c = 1 + r.below(3) as i64;
             match r.below(16) {
